@@ -176,6 +176,12 @@ class HttpProtocolHandler(BaseTcpServerHandler[HttpClientConnection]):
             if self.request.state != httpParserStates.COMPLETE:
                 if self._parse_first_request(data):
                     return True
+                # Bytes following the 1st request in the same read
+                # are client data for the plugin which now handles it.
+                if self.request.is_complete and self.plugin and self.request.buffer:
+                    remainder = self.request.buffer
+                    self.request.buffer = None
+                    self.plugin.on_client_data(remainder)
             # HttpProtocolHandlerPlugin.on_client_data
             # Can raise HttpProtocolException to tear down the connection
             elif self.plugin:
